@@ -78,6 +78,8 @@ fn send_body_pieces(method: &str, path: &str, wire_q: &str, headers: Vec<(String
     for (n, v) in &headers { rb = rb.header(n.as_str(), v.as_str()); }
     // the body is handed over as a STREAM of small frames (not a buffered body), as a transport would
     let frames: Vec<Result<bytes::Bytes, std::io::Error>> = match cut {
+        // frame < 1024 together with a cut: the head up to the cut in one piece, the rest in frames of `frame` bytes
+        Some(k) if k > 0 && k < body.len() && frame < 1024 => std::iter::once(&body[..k]).chain(body[k..].chunks(frame)).map(|c| Ok(bytes::Bytes::copy_from_slice(c))).collect(),
         Some(k) if k > 0 && k < body.len() => vec![Ok(bytes::Bytes::copy_from_slice(&body[..k])), Ok(bytes::Bytes::copy_from_slice(&body[k..]))],
         _ => body.chunks(frame).map(|c| Ok(bytes::Bytes::copy_from_slice(c))).collect(),
     };
@@ -367,7 +369,7 @@ pub fn chunked(a: &[String]) -> Value {
     let hdrs = vec![("host".into(), host.into()), ("content-encoding".into(), "aws-chunked".into()),
         ("content-length".into(), enc_len.to_string()), ("x-amz-content-sha256".into(), ph.into()), ("x-amz-date".into(), stamp), ("x-amz-decoded-content-length".into(), n.to_string()),
         ("authorization".into(), auth)];
-    let (st, calls, rbody) = if cut.is_some() { send_body_pieces("PUT", "/bkt/key", "", hdrs, body, 7, cut) } else { send_body("PUT", "/bkt/key", "", hdrs, body) };
+    let (st, calls, rbody) = if cut.is_some() { send_body_pieces("PUT", "/bkt/key", "", hdrs, body, 1024, cut) } else { send_body("PUT", "/bkt/key", "", hdrs, body) };
     let body_line = calls.iter().find(|c| c.starts_with("put_object.body")).cloned().unwrap_or_default();
     let clean_full = body_line.contains(&format!("bytes={n} ")) && body_line.contains("end=clean");
     let ok = if variant == "complete" || variant == "frame-after-meta" { clean_full }
@@ -420,7 +422,7 @@ pub fn post_form(a: &[String]) -> Value {
         f.extend_from_slice(format!("\r\n--{}", &boundary[..boundary.len() - 1]).as_bytes());
         f.extend_from_slice(&[0u8, 255, 13, 13, 10, 45, 45, 13]);
         f
-    } else if variant == "cuts" {
+    } else if variant == "cuts" || variant == "tiny-frames" {
         // a text file whose last line ends in CRLF, with CRs and delimiter look-alikes inside
         b"first line\r\nsecond\r\r\n--\r\n----verifFormBoundary\r\nlast line\r\n".to_vec()
     } else { b"exactly twenty-3 bytes!".to_vec() };
@@ -441,7 +443,7 @@ pub fn post_form(a: &[String]) -> Value {
     if variant == "unterminated-file" {
         // the body ends inside the file part: no closing delimiter ever arrives
         body.extend_from_slice(b"\r\n--some-other-boundary--\r\n");
-    } else if variant == "cuts" {
+    } else if variant == "cuts" || variant == "tiny-frames" {
         // a field AFTER the file (a submit button), then the closing delimiter
         body.extend_from_slice(format!("\r\n--{boundary}\r\nContent-Disposition: form-data; name=\"submit\"\r\n\r\nUpload to Amazon S3\r\n--{boundary}--\r\n").as_bytes());
     } else {
@@ -465,6 +467,25 @@ pub fn post_form(a: &[String]) -> Value {
             }
         }
         return json!({"violates": false, "evaluated": n});
+    }
+    if variant == "tiny-frames" {
+        // the form's fields arrive in one piece, the file part and everything after it in frames of 1, 2, 3, 5 and 7 bytes (a frame
+        // may be exactly the CRLF of a line break of the file). (Tiny frames from the very first byte are refused by the unchanged
+        // tree — MalformedPOSTRequest: the short-first-frame defect of C09, which no unit of this family reaches.)
+        let file_start = body.windows(file.len()).position(|w| w == &file[..]).unwrap();
+        let mut fnv: u64 = 0xcbf29ce484222325;
+        for y in &file { fnv = (fnv ^ u64::from(*y)).wrapping_mul(0x100000001b3); }
+        for fs in [1usize, 2, 3, 5, 7] {
+            let (st, calls, rbody) = send_body_pieces("POST", "/bkt", "", vec![("host".into(), "localhost".into()),
+                ("content-type".into(), format!("multipart/form-data; boundary={boundary}")), ("content-length".into(), body.len().to_string())], body.clone(), fs, Some(file_start));
+            let body_line = calls.iter().find(|c| c.starts_with("put_object.body")).cloned().unwrap_or_default();
+            let ok = calls.iter().any(|c| c.starts_with("put_object@")) && body_line.contains(&format!("bytes={} ", file.len())) && body_line.contains("end=clean") && body_line.contains(&format!("fnv={fnv:016x}"));
+            if !ok {
+                return json!({"violates": true, "input": {"variant": "tiny-frames", "file_bytes": file.len(), "frame_size": fs},
+                              "expected": "put_object with exactly the file's bytes, whatever the framing", "observed": {"status": st, "backend": calls, "response": rbody.chars().take(200).collect::<String>()}, "replay_args": ["post-form", "tiny-frames"]});
+            }
+        }
+        return json!({"violates": false, "evaluated": 5});
     }
     // frames of 1 KiB (the form's field part arrives in the first frame, the file may straddle frames)
     let (st, calls, rbody) = send_body_framed("POST", "/bkt", "", vec![("host".into(), "localhost".into()),
